@@ -25,6 +25,7 @@ type CEnv struct {
 	pkg   string          // package path for pure/const lookup
 	depth int
 	qn    int
+	noUnfold bool
 }
 
 func (e *CEnv) clone() *CEnv {
@@ -881,6 +882,27 @@ func (e *CEnv) call(ex *CExpr) Value {
 			i = 1
 		}
 		return e.x.connGet(e.st, iv, i)
+	case "parsedur":
+		need(1)
+		return App("parsedur", SInt, bytesArg(0))
+	case "parseok":
+		need(1)
+		return App("parseok", SBool, bytesArg(0))
+	case "dec2":
+		need(1)
+		return App("dec2", SBytes, intArg(0))
+	case "tfmt12":
+		need(1)
+		return App("tfmt12", SBytes, intArg(0))
+	case "inst":
+		need(1)
+		return e.x.instOf(ev(0))
+	case "runecount":
+		need(1)
+		return App("runecount", SInt, bytesArg(0))
+	case "sindex":
+		need(2)
+		return e.x.sindexFacts(e.st, bytesArg(0), bytesArg(1))
 	case "nonsentinel":
 		need(1)
 		switch v := ev(0).(type) {
@@ -981,6 +1003,32 @@ func (e *CEnv) call(ex *CExpr) Value {
 		}
 		return BoolLit(typeName(iv.Dyn) == args[1].Str)
 	}
+	// uninterpreted spec functions declared in a contract file
+	if u, ok := e.x.W.Uninterp[name]; ok {
+		if len(u.Args) != len(args) {
+			cfail("%s expects %d arguments", name, len(u.Args))
+		}
+		sortOf := func(s string) *Sort {
+			switch s {
+			case "Bytes", "string":
+				return SBytes
+			case "bool":
+				return SBool
+			}
+			return SInt
+		}
+		var as []*Term
+		for i, a := range u.Args {
+			if sortOf(a) == SBytes {
+				as = append(as, bytesArg(i))
+			} else if sortOf(a) == SBool {
+				as = append(as, e.asBool(ev(i)))
+			} else {
+				as = append(as, intArg(i))
+			}
+		}
+		return App(name, sortOf(u.Ret), as...)
+	}
 	// layout helpers
 	if v, ok := e.layoutCall(name, args); ok {
 		return v
@@ -990,10 +1038,61 @@ func (e *CEnv) call(ex *CExpr) Value {
 		if len(pd.Params) != len(args) {
 			cfail("%s expects %d arguments", name, len(pd.Params))
 		}
+		if pd.Rec {
+			sortOf := func(s string) *Sort {
+				switch s {
+				case "Bytes", "string":
+					return SBytes
+				case "bool":
+					return SBool
+				}
+				return SInt
+			}
+			var as []*Term
+			vals := make([]Value, len(args))
+			for i, p := range pd.Params {
+				if sortOf(p.Type) == SBytes {
+					as = append(as, bytesArg(i))
+				} else if sortOf(p.Type) == SBool {
+					as = append(as, e.asBool(ev(i)))
+				} else {
+					as = append(as, intArg(i))
+				}
+				vals[i] = as[i]
+			}
+			t := App("rec."+pd.Name, sortOf(pd.Ret), as...)
+			if pd.Ensures != nil && !hasBound(t) && !e.x.recfact[t] {
+				// the inductive property holds of every application (proved once per definition)
+				e.x.recfact[t] = true
+				pn := &CEnv{x: e.x, st: e.st, vars: map[string]Value{"result": t}, pkg: pd.Pkg, noUnfold: true}
+				for i, p := range pd.Params {
+					pn.vars[p.Name] = vals[i]
+				}
+				if f, err := pn.evalBool(pd.Ensures); err == nil {
+					e.x.gfacts = append(e.x.gfacts, f)
+				}
+			}
+			if !e.noUnfold && !e.x.unfolded[t] && !hasBound(t) {
+				e.x.unfolded[t] = true
+				n := &CEnv{x: e.x, st: e.st, old: e.old, entry: e.entry, vars: map[string]Value{}, pkg: pd.Pkg, depth: e.depth + 1, noUnfold: true}
+				for i, p := range pd.Params {
+					n.vars[p.Name] = vals[i]
+				}
+				body := n.eval(pd.Body)
+				var bt *Term
+				if sortOf(pd.Ret) == SBytes {
+					bt = n.asBytes(body)
+				} else {
+					bt = body.(*Term)
+				}
+				e.x.gfacts = append(e.x.gfacts, Eq(t, bt))
+			}
+			return t
+		}
 		if e.depth > 40 {
 			cfail("pure function recursion too deep at %s", name)
 		}
-		n := &CEnv{x: e.x, st: e.st, old: e.old, entry: e.entry, vars: map[string]Value{}, pkg: pd.Pkg, depth: e.depth + 1}
+		n := &CEnv{x: e.x, st: e.st, old: e.old, entry: e.entry, vars: map[string]Value{}, pkg: pd.Pkg, depth: e.depth + 1, noUnfold: e.noUnfold}
 		for i, p := range pd.Params {
 			n.vars[p.Name] = ev(i)
 		}
